@@ -36,16 +36,26 @@ def apply_targets(classes):
     return out
 
 
+R = 'dd.bdd._ReorderingContext.'
+PLUMBING = [T('dd.bdd._request_reordering', consts_spec={'REORDER_FACTOR': 2}),
+            T(R + '__init__'), T(R + '__enter__'), T(R + '__exit__', variant='no-exception'),
+            T(R + '__exit__', variant='signal', args={'ex_type': 'exc:_NeedsReordering'}),
+            T(R + '__exit__', variant='other-exception', args={'ex_type': 'exc:ValueError'}),
+            T('dd.bdd._try_to_reorder._wrapper', env={'func': 'callable:FUNC'}, consts_spec={'GROWTH_FACTOR': 2}),
+            T('dd.bdd._suspend_reordering._wrapper', env={'func': 'callable:FUNCQ'})]
+GC = [T(B + 'collect_garbage', variant='all'), T(B + 'collect_garbage', B + 'collect_garbage!roots', variant='roots')]
+
 TARGETS = {
     'C01': CORE + apply_targets(['not', 'and', 'or', 'xor', 'implies', 'equiv', 'diff', 'ite']),
     'C02': [T(B + 'find_or_add'), T(B + '_ite'), T(B + '_init_terminal'), T(B + 'add_var'), T(B + 'declare'), T(B + 'incref'), T(B + 'decref'),
-            T(B + 'var', B + 'var!body')],
+            T(B + 'var', B + 'var!body')] + GC,
     'C03': [T(B + '_quantify')] + apply_targets(['forall', 'exists']),
     'C04': [T(B + '_cofactor'), T(B + '_compose'), T(B + '_vector_compose'),
             T('dd.bdd._copy_bdd', variant='same-manager', alias={'old_bdd': 'bdd'}), T('dd.bdd.rename'),
             T(B + 'rename', B + 'rename!body')],
-    'C06': [T(B + 'incref'), T(B + 'decref'), T(B + 'ref'), T(B + 'find_or_add')],
-    'C09': [T('dd.bdd._request_reordering', consts_spec={'REORDER_FACTOR': 2})],
+    'C06': [T(B + 'incref'), T(B + 'decref'), T(B + 'ref'), T(B + 'find_or_add')] + GC,
+    'C09': PLUMBING + [T(B + 'ite', B + 'ite!body'), T(B + 'var', B + 'var!body'), T(B + 'rename', B + 'rename!body'),
+                       T('dd.bdd.copy_bdd', variant='two-managers')],
     'C10': [T(B + 'is_essential')],
     'C11': [T('dd.bdd._copy_bdd', variant='two-managers'), T('dd.bdd.copy_bdd', variant='two-managers'),
             T('dd.bdd.copy_bdd', variant='same-manager', alias={'from_bdd': 'to_bdd'}), T(B + 'copy', variant='two-managers')],
@@ -53,6 +63,6 @@ TARGETS = {
             T(B + 'var_at_level'), T(B + 'level_of_var'), T(B + 'var_levels'), T(B + 'var', B + 'var!body')],
     'C17': [T(B + 'find_or_add'), T(B + 'add_var'), T(B + '_check_var'), T(B + '_next_free_level'), T(B + 'var_at_level'),
             T(B + 'level_of_var'), T(B + 'var', B + 'var!body'), T('dd.bdd.rename'), T(B + '_next_free_int')]
-    + apply_targets(['not', 'and', 'ite', 'forall']),
+    + apply_targets(['not', 'and', 'ite', 'forall']) + PLUMBING[1:6],
     'C18': [T(B + 'succ')],
 }
